@@ -3,8 +3,9 @@
    Model: C01/Model.v (code-array reader, general encoder), Pool.v, Resolve.v, Attr.v; generated
    tables: C01/Opcodes.v, C01/Tables.v (regenerated from duke's source on every run). *)
 From Coq Require Import Permutation.
-From FB Require Import C01.Model C01.Pool C01.Resolve C01.Attr
-  C01.Theory1 C01.Theory2 C01.Theory3 C01.Theory4 C01.Theory5 C01.Theory6 C01.Examples.
+From FB Require Import C01.Model C01.Pool C01.Resolve C01.Attr C01.Fmt C01.Formats C01.ClassFile C01.Annot C01.Mutf8
+  C01.Theory1 C01.Theory2 C01.Theory3 C01.Theory4 C01.Theory5 C01.Theory6 C01.Theory7 C01.Theory8 C01.Theory9 C01.Theory10 C01.Theory11
+  C01.Examples C01.Witness C01.Examples2.
 
 (* ---- the code array ---------------------------------------------------------------------------- *)
 
@@ -166,7 +167,121 @@ Theorem C01_header_gate : forall mg minor major, minor < 65536 ->
 Proof. exact header_gate. Qed.
 Print Assumptions C01_header_gate.
 
+(* ---- the whole class file ------------------------------------------------------------------------ *)
+(* Byte layouts outside the code array are format terms (Fmt.v; the attribute formats are generated
+   into Formats.v from the reader's source, assembled in ClassFile.v).  For EVERY format, every pool
+   accessor [rs], every decoder of modified UTF-8 [dec] and every structure that fits the format
+   (numbers fit their fields, counts their count fields, tags are known): reading the encoding of the
+   structure, whatever follows it, yields its description — each pool index replaced by what it
+   resolves to (or Err if it does not resolve), everything else as written — and leaves exactly
+   what follows.  Instances: the exception table, LineNumberTable, LocalVariable(Type)Table, every
+   StackMapTable frame kind with its verification_type_info, annotations and type annotations with
+   target_info and type_path, InnerClasses, EnclosingMethod, NestHost/NestMembers, PermittedSubclasses,
+   Exceptions, MethodParameters, Signature, SourceFile, ConstantValue, Module, ModulePackages,
+   ModuleMainClass, Record, BootstrapMethods, field_info / method_info / attribute_info. *)
+Theorem C01_format_roundtrip : forall impl dec rs f r rest, fits impl rs f r = true ->
+  rd_fmt impl dec rs f (enc_raw r ++ rest) = (do v <- desc_fmt impl dec rs f r; Ok (v, rest)).
+Proof. exact fmt_roundtrip. Qed.
+Print Assumptions C01_format_roundtrip.
+
+(* constant_pool_count and the entries, two-slot entries included: PoolRead::read on the bytes of a
+   pool yields the pool (Utf8 bytes through the decoder) *)
+Theorem C01_pool_bytes : forall dec es rest, pool_fits es = true ->
+  rd_pool dec (enc_pool es ++ rest) = (do p <- decode_pool dec es; Ok (p, rest)).
+Proof. exact rd_pool_enc. Qed.
+Print Assumptions C01_pool_bytes.
+
+(* ONE statement for the whole file: magic, version gate, constant pool, access flags, this/super,
+   interfaces, the field and method loops (first skipped by their attribute lengths, read after the
+   class attributes), every attribute at class / field / method / Code / record-component level, the
+   Code attribute's framing handed to the code-array reader of C01_read_encode, the tree visitor's
+   bookkeeping (once / extend / push / overwrite).  [impl] = true is duke as it is. *)
+Theorem C01_read_class_encode : forall impl dec c, class_fits impl dec c = true ->
+  read_class impl dec (encode_class c) = describe impl dec c.
+Proof. exact read_class_encode. Qed.
+Print Assumptions C01_read_class_encode.
+
+(* … and against the description the JVMS / javac give of the structure ([describe false]): equal
+   outside the three known findings (F13p a method with Runtime(In)VisibleParameterAnnotations, F13r a
+   Record attribute without components, F13t target_type 0x13 inside method_info) *)
+Theorem C01_read_class_spec : forall dec c, class_fits true dec c = true -> known_free dec c = true ->
+  read_class true dec (encode_class c) = describe false dec c.
+Proof. exact read_class_spec. Qed.
+Print Assumptions C01_read_class_spec.
+
+(* each known class is refuted on a witness: well-formed, described, and duke's reading differs
+   (F13p, F13r: something is missing from the tree; F13t: the file is rejected) *)
+Theorem C01_read_class_refuted_f13p : refuted_on w_f13p /\ class_fits true mutf8_dec w_f13p = true.
+Proof. exact f13p_refuted. Qed.
+Print Assumptions C01_read_class_refuted_f13p.
+Theorem C01_read_class_refuted_f13r : refuted_on w_f13r /\ class_fits true mutf8_dec w_f13r = true.
+Proof. exact f13r_refuted. Qed.
+Print Assumptions C01_read_class_refuted_f13r.
+Theorem C01_read_class_refuted_f13t : refuted_on w_f13t /\ read_class true mutf8_dec (encode_class w_f13t) = Err.
+Proof. exact f13t_refuted. Qed.
+Print Assumptions C01_read_class_refuted_f13t.
+(* the unrestricted statement is the Definition read_class_spec_full (Examples2.v): not proved — refuted *)
+Theorem C01_read_class_spec_full_refuted : ~ read_class_spec_full.
+Proof. exact read_class_spec_full_refuted. Qed.
+Print Assumptions C01_read_class_spec_full_refuted.
+
+(* The Code attribute inside the class, composed with the code-array theorems (C01_read_encode): if the
+   code array is the encoding of [body] under the choice function [ch] and the label-carrying tables
+   of the attribute — parsed from their bytes by the formats above: exception table, LineNumberTable,
+   LocalVariable(Type)Table, StackMapTable frame offsets and Uninitialized offsets, type-annotation
+   targets — are the tables [t] over instruction indices seen through the layout of that encoding,
+   then the class reader builds: the instructions of the body (labels exactly on the referenced
+   ones, frames attached in order: [expected body t]), and every table with each bytecode offset
+   replaced by [ix_of_layout] of it — the index of the instruction at that offset
+   (C01_layout_index). *)
+Theorem C01_code_in_class : forall impl p b ch body bs t v ms ml exc attrs st,
+  encode ch body = Some bs -> body <> [] -> N.of_nat (length bs) <= 65535 ->
+  targets_ok body -> tables_ok (length body) t ->
+  code_parts v = Some (ms, ml, bs, exc, attrs) ->
+  fold_attrs (apply_simple impl 3) st_empty attrs = Ok st ->
+  code_in_of_state bs exc st = Ok (code_in_of (posf_of (layout ch body)) t bs) ->
+  build_code impl p b v =
+    (do xi <- map_res (resolve_entry p b) (cs_insns (expected body t));
+     Ok (code_desc_of ms ml xi (cs_last (expected body t)) (ix_of_layout ch body) exc st
+           (count_some (map (fun x => snd (fst x)) (cs_insns (expected body t)))))).
+Proof. exact code_in_class. Qed.
+Print Assumptions C01_code_in_class.
+
+Theorem C01_layout_index : forall ch body k, (k <= length body)%nat ->
+  ix_of_layout ch body (posf_of (layout ch body) k) = Some k.
+Proof. exact ix_of_layout_designates. Qed.
+Print Assumptions C01_layout_index.
+
+(* ---- annotations -------------------------------------------------------------------------------- *)
+(* element_value trees over all tags (B C D F I J S Z s e c @ [): every element value whose indices
+   and counts fit and whose annotations / arrays nest at most 64 deep is read from its encoding to
+   its structural description *)
+Theorem C01_element_value_roundtrip : forall impl dec rs e rest, ev_ok e = true -> (ev_depth e <= 64)%nat ->
+  rd_fmt impl dec rs (ev_fmt max_ev_nesting) (enc_raw (raw_of_ev e) ++ rest) = (do v <- describe_ev rs e; Ok (v, rest)).
+Proof. exact ev_roundtrip. Qed.
+Print Assumptions C01_element_value_roundtrip.
+
+Theorem C01_annotation_roundtrip : forall impl dec rs a rest, annotation_ok a = true -> (annotation_depth a <= 64)%nat ->
+  rd_fmt impl dec rs annotation_fmt (enc_raw (raw_of_annotation a) ++ rest) = (do v <- describe_annotation rs a; Ok (v, rest)).
+Proof. exact annotation_roundtrip. Qed.
+Print Assumptions C01_annotation_roundtrip.
+
+(* the limit is the reader's (fix cd3a624): 64 levels are read, 65 are refused *)
+Theorem C01_ev_nesting_limit : forall impl dec rs,
+  (exists v, rd_fmt impl dec (fun _ _ => Ok (VInt 0)) (ev_fmt max_ev_nesting) (enc_raw (raw_of_ev (nested_array 64 1))) = Ok (v, [])) /\
+  rd_fmt impl dec rs (ev_fmt max_ev_nesting) (enc_raw (raw_of_ev (nested_array 65 1))) = Err.
+Proof. exact ev_nesting_limit. Qed.
+Print Assumptions C01_ev_nesting_limit.
+
 (* ---- non-vacuity -------------------------------------------------------------------------------- *)
 Theorem C01_examples : nonvacuous.
 Proof. exact nonvacuous_holds. Qed.
 Print Assumptions C01_examples.
+
+Theorem C01_examples2 : nonvacuous2.
+Proof. exact nonvacuous2_holds. Qed.
+Print Assumptions C01_examples2.
+
+Theorem C01_examples3 : nonvacuous3.
+Proof. exact nonvacuous3_holds. Qed.
+Print Assumptions C01_examples3.
